@@ -97,6 +97,29 @@ def _has_prefix_then_highbyte(p):
     return False
 
 
+_EDGE_CODEPOINTS = (0x7F, 0x80, 0xBF, 0xC0, 0xFF, 0x100, 0x7FF, 0x800, 0xFFF, 0x1000, 0xCFFF, 0xD000, 0xD7FF, 0xE000,
+                    0xFFFD, 0xFFFE, 0xFFFF, 0x10000, 0x3FFFF, 0x40000, 0xFFFFF, 0x100000, 0x10FFFE, 0x10FFFF)
+
+
+def _gen_follower(rng, enc, t, ascii_only):
+    """what comes right after a prefix key in the same read: a character, a control character, a complete table
+    sequence or another prefix key (ascii_only: nothing that starts with a byte >= 0x80 - the known finding)"""
+    k = rng.random()
+    if k < 0.5:
+        if not ascii_only:
+            return _gen_char(rng, enc, t)
+        b = bytes([rng.randint(0x20, 0x7E)])
+        return b"a" if b in t["prefixes"] else b
+    if k < 0.65:
+        return bytes([rng.choice((0, 1, 4, 9, 10, 13, 26, 27, 28, 31, 127))])
+    pool = t["all"] if k < 0.9 else t["prefix_keys"]
+    for _ in range(20):
+        u = rng.choice(pool)
+        if u[0] < 0x80 and not (enc == "ascii" and any(c >= 0x80 for c in u)):
+            return u
+    return b"a"
+
+
 def _gen_char(rng, enc, t):
     for _ in range(100):
         if enc == "ascii":
@@ -108,6 +131,8 @@ def _gen_char(rng, enc, t):
             cp = {1: rng.randint(0x20, 0x7E), 2: rng.randint(0x80, 0x7FF),
                   3: rng.choice((rng.randint(0x800, 0xD7FF), rng.randint(0xE000, 0xFFFF))),
                   4: rng.randint(0x10000, 0x10FFFF)}[n]
+            if rng.random() < 0.12:
+                cp = rng.choice(_EDGE_CODEPOINTS)       # ends of every encoded length and of every lead byte's range
             b = chr(cp).encode("utf-8")
         if b not in t["prefixes"]:
             return b
@@ -158,10 +183,7 @@ def gen_plan(seed, tier, index=0, avoid=()):
         cur.append(u)
         if is_prefix or is_meta:
             if (follow or follow_ascii_only) and is_prefix and rng.random() < 0.6:
-                nxt = _gen_char(rng, enc, t) if follow else bytes([rng.randint(0x20, 0x7E)])
-                if follow_ascii_only and nxt in t["prefixes"]:
-                    nxt = b"a"
-                cur.append(nxt)
+                cur.append(_gen_follower(rng, enc, t, follow_ascii_only))
                 arrivals.append({"units": [x.hex() for x in cur], "followed": True})
                 del cur[:]
             else:
